@@ -25,9 +25,10 @@ CONSTANT TraceFile
 Trace == ndJsonDeserialize(TraceFile)
 
 VARIABLES l,      \* number of trace lines consumed
-          iks     \* ledger -> (idempotency key -> [ikin, id]) remembered by the specification
+          iks,    \* ledger -> (idempotency key -> [ikin, id]) remembered by the specification
+          used    \* set of ledgers that have accepted a write (state "in use": imports are refused)
 
-vars == <<l, iks>>
+vars == <<l, iks, used>>
 
 ToTx(t) == [id |-> t.id, ps |-> t.ps, ts |-> t.ts, ins |-> t.ins, ref |-> t.ref, meta |-> t.meta,
             rev |-> t.rev, revAt |-> t.revAt, reverts |-> t.reverts, pcv |-> ToSet(t.pcv)]
@@ -47,7 +48,7 @@ IsConc(i) == Trace[i].conc
 IsAux(i) == Trace[i].aux
 IsSeq(i) == ~Trace[i].reset /\ ~Trace[i].conc /\ ~Trace[i].aux
 
-Init == l = 0 /\ iks = <<>>
+Init == l = 0 /\ iks = <<>> /\ used = {}
 
 \* ids are drawn from sequences with gaps: the specification takes the observed new ids
 NewTxId(i, lg) == LET c == Raw(i - 1)[lg].txs
@@ -61,13 +62,18 @@ IksOf(lg) == IF lg \in DOMAIN iks THEN iks[lg] ELSE <<>>
 
 \* what Ledger prescribes for line i, given the observed predecessor state
 X(i) == LET lg == Trace[i].op.l
-        IN Apply(LS(i - 1, lg), IksOf(lg), Trace[i].op, NewTxId(i, lg), NewLogId(i, lg))
+        IN IF Trace[i].op.k = "import"
+           THEN ImportOp(LS(i - 1, lg), lg \in used, LS(i - 1, Trace[i].op.src))
+           ELSE Apply(LS(i - 1, lg), IksOf(lg), Trace[i].op, NewTxId(i, lg), NewLogId(i, lg))
 
 Committed(i) == X(i).ok /\ ~X(i).hit /\ ~Trace[i].op.dry
 
 Next ==
   /\ l < Len(Trace)
   /\ l' = l + 1
+  /\ used' = IF IsReset(l + 1) THEN {}
+             ELSE IF IsSeq(l + 1) /\ Committed(l + 1) /\ Trace[l + 1].op.k # "import"
+                  THEN used \cup {Trace[l + 1].op.l} ELSE used
   /\ IF IsReset(l + 1)
      THEN iks' = <<>>
      ELSE IF IsConc(l + 1) \/ IsAux(l + 1)
@@ -75,7 +81,12 @@ Next ==
      ELSE LET e == Trace[l + 1]
               lg == e.op.l
               x == X(l + 1)
-          IN iks' = IF Committed(l + 1) /\ e.op.ik # ""
+          IN iks' = IF e.op.k = "import"
+                    THEN (IF x.ok
+                          THEN [g \in DOMAIN iks \cup {lg} |-> IF g = lg THEN IksOf(e.op.src) ELSE iks[g]]
+                          ELSE iks)   \* the copy answers the source's idempotency keys
+                    ELSE
+                    IF Committed(l + 1) /\ e.op.ik # ""
                     THEN [g \in DOMAIN iks \cup {lg} |->
                             IF g = lg
                             THEN [k \in DOMAIN IksOf(lg) \cup {e.op.ik} |->
@@ -206,7 +217,9 @@ P_C35_FeatureReads(i) ==
        /\ ReadOK(r.volPitIns, r.flags.moves)
        /\ ReadOK(r.aggPitIns, r.flags.moves)
        /\ ReadOK(r.acctVol, r.flags.moves)
-       /\ ReadOK(r.acctBalPit, r.flags.moves)
+       \* a balance filter at a point in time reads post_commit_effective_volumes of moves: needs both features
+       \* (before fix 3f6701b it answered [] when effective volumes were off; see C20 in known-findings.txt)
+       /\ ReadOK(r.acctBalPit, r.flags.moves /\ r.flags.eff)
        /\ (r.flags.moves \/ ~r.flags.effsync => ReadOK(r.aggPitEff, r.flags.eff) /\ ReadOK(r.acctEff, r.flags.eff))
 \* the inconsistent combination MOVES_HISTORY = OFF with ..._EFFECTIVE_VOLUMES = SYNC: effective volumes
 \* cannot exist without moves, so reads of them must be rejected too.  The code only looks at the second
@@ -225,13 +238,26 @@ EventKind(op) == CASE op.k = "create" -> "committed_transaction"
                    [] op.k \in {"txmeta", "acmeta"} -> "saved_metadata"
                    [] op.k \in {"untxmeta", "unacmeta"} -> "deleted_metadata"
 P_C31_Events(i) ==
-   IF Committed(i)
+   IF Committed(i) /\ Trace[i].op.k # "import"   \* an import publishes nothing
    THEN /\ Len(Trace[i].ev) = 1
         /\ Trace[i].ev[1].kind = EventKind(Trace[i].op)
         /\ Trace[i].ev[1].l = Trace[i].op.l
         /\ Trace[i].ev[1].afterCommit
         /\ (Trace[i].op.k \in {"create", "revert"} => Trace[i].ev[1].tx = X(i).id)
    ELSE Len(Trace[i].ev) = 0
+
+\* C11: an accepted import makes the copy expose exactly what the source exposes, hashes included
+Hashes(o) == [k \in DOMAIN o.logs |-> o.logs[k].h]
+P_C11_ImportFaithful(i) ==
+  Trace[i].op.k = "import" /\ X(i).ok /\ Len(LS(i - 1, Trace[i].op.src).logs) > 0 =>
+     /\ Trace[i].res.ok
+     /\ Nxt(i) = LS(i - 1, Trace[i].op.src)
+     /\ Hashes(Raw(i)[Trace[i].op.l]) = Hashes(Raw(i - 1)[Trace[i].op.src])
+     /\ Raw(i)[Trace[i].op.l].vols = Raw(i - 1)[Trace[i].op.src].vols
+\* C12: an import is accepted exactly when the ledger never accepted a write and holds no log at or after
+\* the first imported one; a refused import has no effect (Step_C07_NoTrace)
+P_C12_ImportOutcome(i) ==
+  Trace[i].op.k = "import" => Trace[i].res.ok = X(i).ok /\ Trace[i].res.err = X(i).err
 
 \* a reset line must show pristine ledgers
 P_ResetPristine(i) == \A g \in Ledgers(i) : Raw(i)[g].txs = <<>> /\ Raw(i)[g].logs = <<>>
@@ -255,15 +281,17 @@ Canon(ls) == [txs |-> ToSet(ls.txs), accts |-> ls.accts,
               logs |-> {[type |-> g.type, date |-> g.date, ik |-> g.ik, tx |-> g.tx, tgt |-> g.tgt, key |-> g.key, meta |-> g.meta]
                           : g \in ToSet(ls.logs)}]
 
-RECURSIVE SerialFold(_, _, _, _, _)
-\* applies ops p[k..n] of line i in order; returns [good, ls]
-SerialFold(ls, ik, i, p, k) ==
+RECURSIVE SerialFold(_, _, _, _, _, _)
+\* applies ops p[k..n] of line i in order (u: the ledger has accepted a write); returns [good, ls]
+SerialFold(ls, ik, u, i, p, k) ==
   IF k > NOps(i) THEN [good |-> TRUE, ls |-> ls]
   ELSE LET j == p[k]
            op == Trace[i].ops[j]
            r == Trace[i].ress[j]
            txid == IF r.ok /\ r.id # 0 /\ ~r.hit THEN r.id ELSE MaxTxId(ls) + 1000
-           x == Apply(ls, ik, op, txid, MaxLogId(ls) + 1)
+           x == IF op.k = "import"
+                THEN ImportOp(ls, u, LS(BaseOf(i), op.src))
+                ELSE Apply(ls, ik, op, txid, MaxLogId(ls) + 1)
            \* a concurrent duplicate may be answered by the idempotent replay or by an explicit conflict error
            match == \/ (x.ok = r.ok /\ x.err = r.err /\ x.hit = r.hit
                          /\ (x.ok /\ op.k \in {"create", "revert"} => x.id = r.id))
@@ -272,7 +300,8 @@ SerialFold(ls, ik, i, p, k) ==
            ik2 == IF committed /\ op.ik # ""
                   THEN [q \in DOMAIN ik \cup {op.ik} |-> IF q = op.ik THEN [ikin |-> op.ikin, id |-> x.id] ELSE ik[q]]
                   ELSE ik
-       IN IF match THEN SerialFold(x.ls, ik2, i, p, k + 1) ELSE [good |-> FALSE, ls |-> ls]
+           u2 == u \/ (committed /\ op.k # "import")
+       IN IF match THEN SerialFold(x.ls, ik2, u2, i, p, k + 1) ELSE [good |-> FALSE, ls |-> ls]
 
 RespectsCommitOrder(i, p) ==
   \A a, b \in 1..NOps(i) : a < b /\ Trace[i].cseq[p[a]] > 0 /\ Trace[i].cseq[p[b]] > 0
@@ -283,10 +312,11 @@ Serializable(i) ==
       b == BaseOf(i)
   IN \E p \in Permutations(1..NOps(i)) :
         /\ RespectsCommitOrder(i, p)
-        /\ LET f == SerialFold(LS(b, lg), IksOf(lg), i, p, 1)
+        /\ LET f == SerialFold(LS(b, lg), IksOf(lg), lg \in used, i, p, 1)
            IN f.good /\ Canon(f.ls) = Canon(LS(i, lg))
 
 PC_C06_Serializable(i) == Trace[i].prop = "C06" => Serializable(i)
+PC_C12_Serializable(i) == Trace[i].prop = "C12" => Serializable(i)
 PC_C13_Serializable(i) == Trace[i].prop = "C13" => Serializable(i)
 PC_C14_Serializable(i) == Trace[i].prop = "C14" => Serializable(i)
 PC_C15_Serializable(i) == Trace[i].prop = "C15" => Serializable(i)
@@ -313,6 +343,9 @@ PC_C09_LinearChain(i) ==
 (* The same predicates as TLC invariants / action properties               *)
 (***************************************************************************)
 StepC_C06_Serializable == [][IsConc(l') => PC_C06_Serializable(l')]_vars
+StepC_C12_Serializable == [][IsConc(l') => PC_C12_Serializable(l')]_vars
+Step_C11_ImportFaithful == [][IsSeq(l') => P_C11_ImportFaithful(l')]_vars
+Step_C12_ImportOutcome == [][IsSeq(l') => P_C12_ImportOutcome(l')]_vars
 StepC_C13_Serializable == [][IsConc(l') => PC_C13_Serializable(l')]_vars
 StepC_C14_Serializable == [][IsConc(l') => PC_C14_Serializable(l')]_vars
 StepC_C15_Serializable == [][IsConc(l') => PC_C15_Serializable(l')]_vars
@@ -391,10 +424,13 @@ StepChecks(i) ==
      <<"Step_C18_Accounts", P_C18_Accounts(i)>>,
      <<"Step_C03_Immutable", P_C03_Immutable(i)>>,
      <<"Step_C19_Frame", P_C19_Frame(i)>>,
-     <<"Step_C31_Events", P_C31_Events(i)>> >>
+     <<"Step_C31_Events", P_C31_Events(i)>>,
+     <<"Step_C11_ImportFaithful", P_C11_ImportFaithful(i)>>,
+     <<"Step_C12_ImportOutcome", P_C12_ImportOutcome(i)>> >>
 
 ConcChecks(i) ==
   << <<"StepC_C06_Serializable", PC_C06_Serializable(i)>>,
+     <<"StepC_C12_Serializable", PC_C12_Serializable(i)>>,
      <<"StepC_C13_Serializable", PC_C13_Serializable(i)>>,
      <<"StepC_C14_Serializable", PC_C14_Serializable(i)>>,
      <<"StepC_C15_Serializable", PC_C15_Serializable(i)>>,
